@@ -1259,7 +1259,7 @@ struct Engine {
     for (int i = 0; i < NQ; ++i) { construct_default(Q[i]); }
     for (int i = 0; i < NZ; ++i) { construct_default(Z[i]); }
     verify(OpInfo(), false);
-    for (int i = 0; i < nops && !g_cut; ++i) {
+    for (int i = 0; i < nops && !g_cut && !g_fz_exhausted; ++i) {
       g_cur_op = i + 1;
       int ai = rng.below(NP);
       uint32_t r = rng.below(100);
@@ -1312,12 +1312,86 @@ struct Engine {
       if (g_blk_live != 0) violation("C06", "alloc.outstanding_at_end", fmt("%ld block(s) still outstanding after all containers were destroyed", g_blk_live));
       ++n_hist;
       if (sample_hist.size() < 3) sample_hist.push_back(cur_hist_text);
+      else if (g_fz_on && cur_hist_text.size() > sample_hist[n_hist % 3].size()) sample_hist[n_hist % 3] = cur_hist_text;  // fuzz mode: keep long ones
     }
   }
 };
 
 }  // namespace vf
 
+namespace vf {
+template <class Eng>
+void write_vec_summary(Eng &eng, uint64_t seed, long from, long next, long to, bool hook) {
+  {
+    MonScope m;
+    std::string cells = "{";
+    bool first = true;
+    for (auto &kv : eng.cells) {
+      if (!first) cells += ",";
+      first = false;
+      cells += "\"" + jesc(kv.first) + "\":" + std::to_string(kv.second);
+    }
+    cells += "}";
+    std::string samples = "[";
+    for (size_t i = 0; i < eng.sample_hist.size(); ++i) samples += (i ? ",\"" : "\"") + jesc(eng.sample_hist[i]) + "\"";
+    samples += "]";
+    out_line(fmt("{\"t\":\"summary\",\"cfg\":\"%s\",\"seed\":%llu,\"from\":%ld,\"next\":%ld,\"to\":%ld,\"cut\":%d,\"histories\":%llu,\"calls\":%llu,"
+                 "\"hook\":%d,\"hook_alive\":%llu,\"entitled_calls\":%llu,\"unentitled_alloc_calls\":%llu,\"handovers\":%llu,\"nonrealloc_checks\":%llu,"
+                 "\"relocations\":%llu,\"cap_decreases_legit\":%llu,\"alloc\":%llu,\"dealloc\":%llu,\"realloc\":%llu,\"blk_peak\":%ld,"
+                 "\"ev\":[%llu,%llu,%llu,%llu,%llu,%llu,%llu]",
+                 VF_CFG_NAME, (unsigned long long)seed, from, next, to, g_cut ? 1 : 0, (unsigned long long)eng.n_hist, (unsigned long long)eng.n_calls,
+                 hook ? 1 : 0, (unsigned long long)g_hook_alive, (unsigned long long)eng.n_entitled_calls, (unsigned long long)eng.n_unentitled_allocs,
+                 (unsigned long long)eng.n_handover, (unsigned long long)eng.n_nonrealloc, (unsigned long long)eng.n_reloc, (unsigned long long)eng.n_capdec,
+                 (unsigned long long)g_n_alloc, (unsigned long long)g_n_dealloc, (unsigned long long)g_n_realloc, g_blk_peak,
+                 (unsigned long long)g_ev_all[0], (unsigned long long)g_ev_all[1], (unsigned long long)g_ev_all[2], (unsigned long long)g_ev_all[3],
+                 (unsigned long long)g_ev_all[4], (unsigned long long)g_ev_all[5], (unsigned long long)g_ev_all[6]) +
+             ",\"cells\":" + cells + ",\"samples\":" + samples + "}");
+  }
+}
+}  // namespace vf
+
+// ---------------------------------------------------------------------- coverage-guided entry point (libFuzzer, -DVF_FUZZ)
+#ifdef VF_FUZZ
+static vf::Engine<Vec, Vec2> *g_fz_eng = nullptr;
+static long g_fz_inputs = 0;
+static void fz_at_exit() {
+  // libFuzzer leaves through exit() once -runs is reached: the summary (cells observed, calls, element events) goes to the out file
+  if (g_fz_eng) vf::write_vec_summary(*g_fz_eng, 0, 0, g_fz_inputs, g_fz_inputs, true);
+}
+extern "C" int LLVMFuzzerTestOneInput(const uint8_t *data, size_t size) {
+  using namespace vf;
+  static Engine<Vec, Vec2> *eng = nullptr;
+  long &h = g_fz_inputs;
+  if (!eng) {
+    MonScope m;
+    const char *out = getenv("VF_FUZZ_OUT");
+    if (out) open_out(out);
+    const char *ring = getenv("VF_FUZZ_RING");
+    if (ring) open_ring(ring);
+    install_malloc_hook();
+    g_elem_relocatable = EI<Elem>::kRelocatable;
+    eng = new Engine<Vec, Vec2>();
+    eng->swap2_heavy = getenv("VF_FUZZ_SWAP2") != nullptr;
+    g_fz_eng = eng;
+    atexit(fz_at_exit);
+  }
+  g_fz_data = data;
+  g_fz_size = size;
+  g_fz_pos = 0;
+  g_fz_exhausted = false;
+  g_fz_on = true;
+  eng->run_history(0, h++, 150);
+  g_fz_on = false;
+  if (g_cut) {
+    // a monitor fired (the record is already written): die so that libFuzzer keeps the input as the replay artifact
+    MonScope m;
+    out_line(fmt("{\"t\":\"fuzz_stop\",\"inputs\":%ld,\"calls\":%llu}", h, (unsigned long long)eng->n_calls));
+    write_vec_summary(*eng, 0, 0, h, h, true);
+    abort();
+  }
+  return 0;
+}
+#else
 // ---------------------------------------------------------------------- main
 int main(int argc, char **argv) {
   using namespace vf;
@@ -1349,31 +1423,8 @@ int main(int argc, char **argv) {
     eng.run_history(seed, h, nops);
     if (g_cut) break;
   }
-  {
-    MonScope m;
-    std::string cells = "{";
-    bool first = true;
-    for (auto &kv : eng.cells) {
-      if (!first) cells += ",";
-      first = false;
-      cells += "\"" + jesc(kv.first) + "\":" + std::to_string(kv.second);
-    }
-    cells += "}";
-    std::string samples = "[";
-    for (size_t i = 0; i < eng.sample_hist.size(); ++i) samples += (i ? ",\"" : "\"") + jesc(eng.sample_hist[i]) + "\"";
-    samples += "]";
-    out_line(fmt("{\"t\":\"summary\",\"cfg\":\"%s\",\"seed\":%llu,\"from\":%ld,\"next\":%ld,\"to\":%ld,\"cut\":%d,\"histories\":%llu,\"calls\":%llu,"
-                 "\"hook\":%d,\"hook_alive\":%llu,\"entitled_calls\":%llu,\"unentitled_alloc_calls\":%llu,\"handovers\":%llu,\"nonrealloc_checks\":%llu,"
-                 "\"relocations\":%llu,\"cap_decreases_legit\":%llu,\"alloc\":%llu,\"dealloc\":%llu,\"realloc\":%llu,\"blk_peak\":%ld,"
-                 "\"ev\":[%llu,%llu,%llu,%llu,%llu,%llu,%llu]",
-                 VF_CFG_NAME, (unsigned long long)seed, from, g_cut ? h + 1 : h, to, g_cut ? 1 : 0, (unsigned long long)eng.n_hist, (unsigned long long)eng.n_calls,
-                 hook ? 1 : 0, (unsigned long long)g_hook_alive, (unsigned long long)eng.n_entitled_calls, (unsigned long long)eng.n_unentitled_allocs,
-                 (unsigned long long)eng.n_handover, (unsigned long long)eng.n_nonrealloc, (unsigned long long)eng.n_reloc, (unsigned long long)eng.n_capdec,
-                 (unsigned long long)g_n_alloc, (unsigned long long)g_n_dealloc, (unsigned long long)g_n_realloc, g_blk_peak,
-                 (unsigned long long)g_ev_all[0], (unsigned long long)g_ev_all[1], (unsigned long long)g_ev_all[2], (unsigned long long)g_ev_all[3],
-                 (unsigned long long)g_ev_all[4], (unsigned long long)g_ev_all[5], (unsigned long long)g_ev_all[6]) +
-             ",\"cells\":" + cells + ",\"samples\":" + samples + "}");
-  }
+  write_vec_summary(eng, seed, from, g_cut ? h + 1 : h, to, hook);
   if (g_cut) _exit(3);
   return 0;
 }
+#endif
